@@ -54,7 +54,13 @@ NOEVIDENCE = False
 
 ENGINES = [
     dict(name="A:vsched", path="harness/vsched + tools/rewrite", serves_properties=["C17", "C18"],
-         kind_free_text="stateless model checker for goroutine interleavings: go/ast rewriter turns every channel/select/mutex/atomic/go operation of the current pool.go/handler.go/twoparty.go into a scheduling point of a cooperative scheduler; DFS over choice sequences with iterative preemption bounding, sharded over processes"),
+         kind_free_text="stateless model checker for goroutine interleavings: go/ast rewriter turns every channel/select/mutex (Lock, Unlock, TryLock)/atomic/go operation of the current pool.go/handler.go/twoparty.go into a scheduling point of a cooperative scheduler; DFS over choice sequences with iterative preemption bounding, sharded over processes"),
+    dict(name="B:netsim", path="harness/netsim", serves_properties=["C06", "C07"],
+         kind_free_text="explicit-state model checker over delivery schedules of the repository's real handlers: breadth-first search with replay-based successors (live objects cannot be cloned), per-actor memoised product form, canonical state = deep reflective digest of every handler + pending multiset + budgets; duplicate / foreign / stale injections, man-in-the-middle rewriting, twin (two-instance) equivocators, eager actors; deviation-bounded form (FIFO plus every schedule with <= k departures) for expensive protocols; every violation found in product form is re-validated by a full live replay"),
+    dict(name="C:faults", path="harness/faults + harness/cmd/fcheck", serves_properties=["C03", "C04", "C05", "C09", "C13", "C15"],
+         kind_free_text="exhaustive single-fault enumeration: every message slot x every CBOR field path x operator catalogue (semantic or structural), state-level deviations through reflection on the deviator's round object, coordinated multi-message deviations, one fresh deterministic session per fault; process-death attribution through a progress file"),
+    dict(name="D:lattice", path="harness/cmd/c01 c02 c08 c10 c11 c12 c13 c14 c15 c16 c19 c20, harness/hist, harness/oracle, harness/ref", serves_properties=["C01", "C02", "C08", "C10", "C11", "C12", "C13", "C14", "C15", "C16", "C19", "C20"],
+         kind_free_text="bounded-exhaustive enumeration of inputs (boundary lattices, complete domains for tiny Paillier keys) and of operation histories (breadth-first, replay-based successors, fault points of a session, subset sessions) on the real code, judged at every step by independent math/big reference models"),
 ]
 
 
